@@ -95,6 +95,7 @@ try:
                         ["pfill", "patw", "reset", "drop"], ops=["pfill", "reset", "drop"]))
     # C13 stays the vec family's own spec; its pure growth-policy field belongs to C18
     SPECS["C13"] = _copy.deepcopy(_v.SPECS["C13"])
+    SPECS["C13"]["fields"] = [f for f in SPECS["C13"]["fields"] if f != "cap"]   # exact capacity values are C18's business
     SPECS["C15"] = dict(family="multi", level="proof", parts=["C15V", "C15B", "C15A"],
                         lean_modules=["BumpVerif.Props.C15", "BumpVerif.Props.C17", "BumpVerif.Props.C16A"],
                         drivers=["Driver.VecMain", "Driver.BoxMain", "Driver.Main"])
